@@ -71,7 +71,7 @@ func vc29B2i(b bool) int {
 var vc29LongGets = []int{63, 64, 65, 255, 256, 257, 300, 600, 1023, 1024, 1025, 1500}
 
 func vc29Gen(r *vu.Rng, i int) []string {
-	if r.Chance(1, 64) {
+	if r.Chance(1, 100) {
 		// long sequential history on ONE queue with a standing backlog (never drains in between)
 		return []string{fmt.Sprintf("run qlong %d %d %d %d", r.Intn(3), vc29LongGets[r.Intn(len(vc29LongGets))],
 			[]int{1, 2, 5, 40, 300}[r.Intn(5)], r.Uint64()>>1)}
@@ -566,6 +566,15 @@ func vc29Exec(ops []string, o *vu.Out) {
 			evs, fails = vc29RunQueue(P, C, K, mode, s, stats)
 			end = fmt.Sprintf("end %d", vc29B2i(mode == 0))
 			o.Stat("scenario:queue")
+		case len(t) == 6 && t[1] == "qlong":
+			pattern, gets, backlog, s := vu.Atoi(t[2]), vu.Atoi(t[3]), vu.Atoi(t[4]), vu.Atou64(t[5])
+			if pattern < 0 || pattern > 2 || gets < 1 || gets > 5000 || backlog < 1 || backlog > 2000 {
+				o.Op(op, "bad-op")
+				continue
+			}
+			evs, fails = vc29RunQLong(pattern, gets, backlog, s, stats)
+			end = fmt.Sprintf("end %d", vc29B2i(len(fails) == 0))
+			o.Stat("scenario:qlong")
 		default:
 			o.Op(op, "bad-op")
 			continue
